@@ -103,13 +103,29 @@ func runC02(c *Ctx) {
 			}
 		}
 	}
+	// versions at and below zero in the nats section (absent = 0): the issuer-role rule does not depend on the version
+	for _, kind := range kinds {
+		for _, ir := range allRoles {
+			for _, ver := range []interface{}{0, -1, -2, -9223372036854775808} {
+				for _, layout := range []string{"v1", "v2"} {
+					for _, hdr := range []string{hdrV1, hdrV2} {
+						s := kr.by[ir]
+						ft := forge(hdr, payload(kind, "nats", ver, s.pub, kr.by["account"].pub), layout, s)
+						ft.Note = fmt.Sprintf("kind=%s issuer=%s version=%v in the nats section", kind, ir, ver)
+						_, o := processToken(c, w, ft)
+						distinct[fmt.Sprint("lowver", kind, ir, ver, layout, hdr == hdrV1, o.Accepted)] = true
+					}
+				}
+			}
+		}
+	}
 	// hybrid payloads: a top-level (version-1 style) kind together with a different kind and a version
 	// inside the nats section - kind dispatch, role check, loader and signed layout must all follow one of them
 	for _, ktop := range append([]string{}, kinds...) {
 		for _, knats := range kinds {
 			// (ktop == knats included: the same kind twice, with a version in the nats section that need not be
 			// the one a top-level kind implies)
-			for _, ver := range []interface{}{nil, 0, 1, 2} {
+			for _, ver := range []interface{}{nil, 0, 1, 2, -1, -2} {
 				for _, layout := range []string{"v1", "v2"} {
 					for _, ir := range []string{"operator", "account", "server", "user"} {
 						s := kr.by[ir]
@@ -510,6 +526,29 @@ func runC01(c *Ctx) {
 					_, o := processToken(c, w, ft)
 					distinct[fmt.Sprint("both", kind, ver, layout, hdr == hdrV1, o.Accepted)] = true
 					c.count("kind_at_both_levels")
+				}
+			}
+		}
+	}
+	// every spelling of the two algorithm names that the header test accepts (it compares case-insensitively):
+	// which text is signed must not depend on the spelling in any decoder
+	for _, kind := range kindNames {
+		s := kr.by[signerFor[kind]]
+		for _, alg := range []string{"ED25519-NKEY", "Ed25519-nkey", "ed25519-NKEY", "ED25519", "Ed25519", "eD25519-nKEY"} {
+			for _, typ := range []string{"JWT", "jwt"} {
+				for _, layout := range []string{"v1", "v2"} {
+					for _, placement := range []string{"top", "nats"} {
+						var ver interface{} = 2
+						if placement == "top" {
+							ver = nil
+						}
+						hdr := fmt.Sprintf(`{"typ":%q,"alg":%q}`, typ, alg)
+						ft := forge(hdr, payload(kind, placement, ver, s.pub, s.pub), layout, s)
+						ft.Note = fmt.Sprintf("%s, header alg spelled %s, signed %s, kind placed %s", kind, alg, layout, placement)
+						_, o := processToken(c, w, ft)
+						distinct[fmt.Sprint("spell", kind, alg, typ, layout, placement, o.Accepted, o.Generic)] = true
+						c.count("alg_spelling")
+					}
 				}
 			}
 		}
